@@ -484,7 +484,8 @@ func matchOutcome(f *Finding, out *ReplayOutcome) bool {
 	case "deadlock":
 		return out.Outcome == "timeout"
 	case "race":
-		return false
+		// replayed with the Go race detector on the real build: confirmed when it reports a race
+		return strings.Contains(out.Raw, "WARNING: DATA RACE")
 	}
 	return false
 }
